@@ -169,8 +169,102 @@ func (c *Ctx) lenMinOnOutcome(eng *ranges.Engine, sc *ssa.Function, i, ridx int,
 	return best, parsed, mentions
 }
 
+// resultLenOnOutcome: a lower bound on len(result resIdx) of call whenever its result outIdx has the
+// outcome `want` (bool value / nil error): the minimum over the callee's matching returns of the
+// returned slice's length, where a slice expression x[a:a+n] / x[:n] with n a parameter of the callee
+// takes the lower bound of the corresponding argument at the call.
+func (c *Ctx) resultLenOnOutcome(eng *ranges.Engine, fn *ssa.Function, call *ssa.Call, resIdx, outIdx int, want bool, depth int) (int64, bool) {
+	sc := call.Call.StaticCallee()
+	if sc == nil || sc.Blocks == nil || !load.InScope(sc) || depth > 2 || len(call.Call.Args) != len(sc.Params) {
+		return 0, false
+	}
+	best := int64(-1)
+	for _, rb := range sc.Blocks {
+		if len(rb.Instrs) == 0 {
+			continue
+		}
+		ret, ok := rb.Instrs[len(rb.Instrs)-1].(*ssa.Return)
+		if !ok || resIdx >= len(ret.Results) || outIdx >= len(ret.Results) {
+			continue
+		}
+		ov := ret.Results[outIdx]
+		if k, ok := ov.(*ssa.Const); ok {
+			if ov.Type().String() == "error" {
+				if k.IsNil() != want {
+					continue
+				}
+			} else if k.Value != nil && (k.Value.String() == "true") != want {
+				continue
+			}
+		} else if ov.Type().String() == "error" && want && definitelyNonNilError(ret, outIdx) {
+			continue
+		}
+		m := int64(0)
+		rv := ret.Results[resIdx]
+		if sl, ok := rv.(*ssa.Slice); ok && sl.High != nil {
+			// length = high - low
+			var n ssa.Value
+			if sl.Low == nil {
+				n = sl.High
+			} else if bo, ok := sl.High.(*ssa.BinOp); ok && bo.Op == token.ADD {
+				if sameExpr(bo.X, sl.Low, 0) {
+					n = bo.Y
+				} else if sameExpr(bo.Y, sl.Low, 0) {
+					n = bo.X
+				}
+			}
+			if n != nil {
+				if pi := paramIndex(sc, stripConv(n)); pi >= 0 {
+					av := eng.At(fn, call.Call.Args[pi], call.Block())
+					if !av.IsBottom() && av.Lo() > 0 {
+						m = av.Lo()
+					}
+				} else if k, ok := n.(*ssa.Const); ok && k.Value != nil {
+					m = k.Int64()
+				}
+			}
+		}
+		if m == 0 {
+			if mm, ok := c.lenLowerOfValue(eng, sc, rv, rb, depth+1); ok {
+				m = mm
+			}
+		}
+		if best < 0 || m < best {
+			best = m
+		}
+	}
+	if best < 0 {
+		return 0, false
+	}
+	return best, true
+}
+
 func (c *Ctx) lenFactsAtDepth(eng *ranges.Engine, fn *ssa.Function, s ssa.Value, b *ssa.BasicBlock, depth int) lenFact {
 	var f lenFact
+	// s is a result of a helper call whose outcome is tested on a dominating edge
+	// (chunk, ok := seg.Next(6); if !ok { return err } / b, err := r.fill(2); if err != nil { … })
+	if ex, ok := s.(*ssa.Extract); ok {
+		if call, ok := ex.Tuple.(*ssa.Call); ok {
+			for cb := b; cb != nil; cb = cb.Idom() {
+				d := cb.Idom()
+				if d == nil {
+					break
+				}
+				if len(cb.Preds) != 1 || cb.Preds[0] != d || len(d.Succs) != 2 {
+					continue
+				}
+				if oc, ridx, wantOnTrue, ok := ranges.OutcomeOfCond(ifCond(d)); ok && oc == call {
+					want := wantOnTrue == (d.Succs[0] == cb)
+					if m, ok := c.resultLenOnOutcome(eng, fn, call, ex.Index, ridx, want, depth); ok {
+						if m > f.min {
+							f.min = m
+						}
+						f.anyCheck = true
+					}
+				}
+			}
+		}
+	}
 	if m, known := c.lenLowerOfValue(eng, fn, s, b, 0); known {
 		f.min = m
 		f.anyCheck = f.anyCheck || m > 0
@@ -694,6 +788,52 @@ func (c *Ctx) lenLowerOfValue(eng *ranges.Engine, fn *ssa.Function, v ssa.Value,
 			return 0, false
 		}
 		return c.fieldMinLen(eng, fa, depth)
+	case *ssa.Call:
+		// append(base, a, b, …): at least len(base) + number of appended elements
+		if bi, ok := x.Call.Value.(*ssa.Builtin); ok && bi.Name() == "append" && len(x.Call.Args) >= 1 {
+			m, ok := c.lenLowerOfValue(eng, fn, x.Call.Args[0], b, depth+1)
+			if !ok {
+				m = 0
+			}
+			if len(x.Call.Args) == 2 {
+				if sl, ok := x.Call.Args[1].(*ssa.Slice); ok {
+					if al, ok := sl.X.(*ssa.Alloc); ok && al.Comment == "varargs" {
+						if at, ok := al.Type().(*types.Pointer).Elem().Underlying().(*types.Array); ok {
+							m += at.Len()
+						}
+					}
+				} else if m2, ok := c.lenLowerOfValue(eng, fn, x.Call.Args[1], b, depth+1); ok {
+					m += m2
+				}
+			}
+			return m, true
+		}
+		// a helper that builds the buffer (withSentinel(data)): the minimum over its returns
+		sc := x.Call.StaticCallee()
+		if sc == nil || sc.Blocks == nil || !load.InScope(sc) || sc.Signature.Results().Len() != 1 {
+			return 0, false
+		}
+		best := int64(-1)
+		for _, rb := range sc.Blocks {
+			if len(rb.Instrs) == 0 {
+				continue
+			}
+			ret, ok := rb.Instrs[len(rb.Instrs)-1].(*ssa.Return)
+			if !ok || len(ret.Results) != 1 {
+				continue
+			}
+			m, ok := c.lenLowerOfValue(eng, sc, ret.Results[0], rb, depth+1)
+			if !ok {
+				return 0, false
+			}
+			if best < 0 || m < best {
+				best = m
+			}
+		}
+		if best < 0 {
+			return 0, false
+		}
+		return best, true
 	case *ssa.Phi:
 		best := int64(-1)
 		for _, e := range x.Edges {
